@@ -302,13 +302,25 @@ CHORD_PARAMS = [None,
                 {'key_change_prob': 0.1, 'chord_change_prob': 0.9, 'chord_pitch_out_of_key_prob': 0.2}]
 
 
+MELODY_PARAM_VALUES = {
+    'melody_interval_scale': [0.5, 1.0, 2.0, 3.5, 5.0],
+    'rest_prob': [0.01, 0.05, 0.1, 0.3, 0.5],
+    'instantaneous_non_max_pitch_prob': [1e-15, 1e-9, 1e-3, 0.05, 0.25],
+    'instantaneous_non_empty_rest_prob': [0.0, 1e-12, 1e-6, 0.01, 0.1],
+    'instantaneous_missing_pitch_prob': [1e-15, 1e-12, 1e-6, 0.01, 0.3],
+}
+
+
 def _gen_melody_params(rng):
-    if rng.random() < 0.4:
+    """Every model parameter of infer_melody_for_sequence independently: left at its default or drawn from its range, so
+    that in most cases the five values are pairwise different (a parameter wired to the wrong place then shows)."""
+    if rng.random() < 0.2:
         return {}
-    return {'melody_interval_scale': rng.choice([0.5, 1.0, 2.0, 5.0]), 'rest_prob': rng.choice([0.01, 0.1, 0.5]),
-            'instantaneous_non_max_pitch_prob': rng.choice([1e-15, 1e-3, 0.2]),
-            'instantaneous_non_empty_rest_prob': rng.choice([0.0, 1e-6, 0.1]),
-            'instantaneous_missing_pitch_prob': rng.choice([1e-15, 1e-4, 0.3])}
+    out = {}
+    for name in sorted(MELODY_PARAM_VALUES):
+        if rng.random() < 0.75:
+            out[name] = rng.choice(MELODY_PARAM_VALUES[name])
+    return out
 
 
 REJECTIONS = ['chords-has-chords', 'chords-unquantized-cpb', 'chords-no-beats', 'chords-uncommon-meter',
@@ -339,6 +351,13 @@ def corpus():
     out.append({'op': 'chords_e2e', 'input': {   # C E G + half-frame Bb | F | G | C  (seeded change C19-1): C F G C, not C7
         'mode': 'fixed', 'num': 4, 'den': 4, 'spq': 4, 'qpm': 120, 'cpb': 2, 'spc': S, 'steps_per_chord': 8, 'total': 4 * S,
         'notes': [[p, a * S // 2, b * S // 2] for p, a, b in demo], 'k': 5, 'addkeys': True, 'params': {}}})
+    # seeded change C19-5: instantaneous_missing_pitch_prob must not be replaced by instantaneous_non_max_pitch_prob
+    G64 = 64 * GRID
+    for gap in ([[48, 0, 3 * G64, 0, 0, 0], [72, 0, G64, 0, 0, 0], [72, 2 * G64, 3 * G64, 0, 0, 0]],
+                [[40, 0, 4 * G64, 0, 0, 0], [76, 0, G64, 0, 0, 0], [74, 96 * GRID, 160 * GRID, 0, 0, 0], [72, 3 * G64, 4 * G64, 0, 0, 0]]):
+        out.append({'op': 'melody_e2e', 'input': {'notes': gap, 'total': max(x[2] for x in gap), 'k': 4,
+                                                   'params': {'instantaneous_non_max_pitch_prob': 0.25,
+                                                              'instantaneous_missing_pitch_prob': 1e-12}}})
     # MIDI pitch 0 as the only / the top voice (seeded change C19-4: `if note_pitch:` drops it), and pitch 127
     out.append({'op': 'melody_e2e', 'input': {'notes': [[0, 0, 64 * GRID, 0, 0, 0]], 'total': 64 * GRID, 'k': 3, 'params': {}}})
     out.append({'op': 'melody_e2e', 'input': {'notes': [[0, 0, 64 * GRID, 0, 0, 0], [1, 64 * GRID, 128 * GRID, 0, 0, 0],
@@ -409,7 +428,7 @@ def cases(rng, tier, n=None):
     # end to end
     for i in range(400 if thorough else 24):
         T = rng.randint(1, 64 if thorough and i % 5 == 0 else 10)
-        params = dict(CHORD_PARAMS[rng.randrange(4 if thorough else 2)] or {})
+        params = dict(CHORD_PARAMS[rng.randrange(4 if thorough else 3)] or {})
         params['chord_note_concentration'] = rng.choice([100.0, 100.0, 10.0, 37.5])
         inp = {'k': rng.randint(1, 11), 'params': params, 'addkeys': rng.random() < 0.5}
         if rng.random() < 0.6:
@@ -782,6 +801,70 @@ def _documented_chord_model(a, kw, shift):
         return None
 
 
+_MTD_CACHE = {}
+
+
+def _documented_melody_model(a, shift):
+    """The melody HMM as infer_melody_for_sequence documents it, rebuilt OUTSIDE that function from the library's own
+    model functions with the REQUESTED parameters (defaults from the signature): frames of sequence_note_frames, frame
+    durations, _melody_frame_log_likelihood with the three instantaneous probabilities in their documented roles,
+    _melody_transition_distribution with rest_prob and the Cauchy-like interval prior 1 / (1 + (d / scale)^2) restricted
+    to the pitches present."""
+    import inspect
+    import numpy as np
+    from note_seq import melody_inference as mi, constants
+    dflt = dict((k, v.default) for k, v in inspect.signature(mi.infer_melody_for_sequence).parameters.items()
+                if v.default is not inspect.Parameter.empty)
+    par = lambda name: a['params'].get(name, dflt[name])
+    try:
+        fresh = _melody_proto(a['notes'], a['total'], shift=shift)
+        pitches, has_onsets, has_notes, event_times = mi.sequence_note_frames(fresh)
+        if not pitches:
+            return None
+        bounds = [0.0] + list(event_times) + [fresh.total_time]
+        durations = np.array([b - x for x, b in zip(bounds, bounds[1:])])
+        scale = par('melody_interval_scale')
+        with np.errstate(divide='ignore', invalid='ignore'):
+            ck = (par('rest_prob'), scale)
+            if ck not in _MTD_CACHE:        # pure function of (rest_prob, scale); 25 combinations at most
+                _MTD_CACHE[ck] = mi._melody_transition_distribution(
+                    rest_prob=par('rest_prob'), interval_prob_fn=lambda d: 1 / (1 + (d / scale) ** 2))
+            dist = _MTD_CACHE[ck]
+            n_midi = constants.MAX_MIDI_PITCH - constants.MIN_MIDI_PITCH + 1
+            idx = ([0] + [q - constants.MIN_MIDI_PITCH + 1 for q in pitches] +
+                   [n_midi + q - constants.MIN_MIDI_PITCH + 1 for q in pitches])
+            log_trans = np.log(dist[idx, :][:, idx])
+            frame_ll = mi._melody_frame_log_likelihood(
+                pitches, has_onsets, has_notes, durations,
+                instantaneous_non_max_pitch_prob=par('instantaneous_non_max_pitch_prob'),
+                instantaneous_non_empty_rest_prob=par('instantaneous_non_empty_rest_prob'),
+                instantaneous_missing_pitch_prob=par('instantaneous_missing_pitch_prob'))
+        return {'pitches': [int(q) for q in pitches], 'times': [_tk(t) for t in bounds[:-1]], 'frame_ll': frame_ll,
+                'log_trans': log_trans}
+    except Exception:
+        return None
+
+
+def _path_of_notes(notes, times, pitches):
+    """The state path the RETURNED melody notes denote: per frame start, onset of the note starting there, sustain of the
+    note sounding through it, rest otherwise.  None if a note does not fit the frames."""
+    np_ = len(pitches)
+    path = []
+    for t in times:
+        st = 0
+        for s0, e0, q in notes:
+            if q not in pitches or not (isinstance(s0, int) and isinstance(e0, int)):
+                return None
+            if s0 == t:
+                st = pitches.index(q) + 1
+            elif s0 < t < e0:
+                st = pitches.index(q) + 1 + np_
+        path.append(st)
+    if any(s0 not in times for s0, _, _ in notes):
+        return None
+    return path
+
+
 def _impl_melody_e2e(a):
     import numpy as np
     from note_seq import melody_inference as mi
@@ -813,20 +896,31 @@ def _impl_melody_e2e(a):
         struct_ok = bool(np.all(np.isneginf(frame_ll[:, 1:len(pitches) + 1][~has_onsets])))
         # hypothesis of theorem C19_melody_assertion_never_fires: a sustain state is entered with log-probability -inf
         # from every state other than the onset / sustain state of its own pitch
-        k = len(pitches)
-        for j in range(k + 1, 2 * k + 1):
-            for i in range(2 * k + 1):
-                if i != j and i + k != j and not np.isneginf(trans_ll[i, j]):
+        npi = len(pitches)
+        for j in range(npi + 1, 2 * npi + 1):
+            for i in range(2 * npi + 1):
+                if i != j and i + npi != j and not np.isneginf(trans_ll[i, j]):
                     struct_ok = False
         init = trans_ll[0, :] + frame_ll[0, :]
         frames = [frame_ll[t] for t in range(1, frame_ll.shape[0])]
         attained = _float_path_score(init, trans_ll, frames, path)
         best = _float_dp(init, trans_ll, frames)
         import hashlib
-        out.append({'attained': attained, 'best': best, 'notes': notes, 'frames': int(frame_ll.shape[0]),
-                    'events': [[k, (p - shift) if k else 0] for k, p in evs], 'struct_ok': struct_ok,
-                    'trans': trans_ll, 'frame_ll': hashlib.sha1(frame_ll.tobytes()).hexdigest(),
-                    'nan': bool(np.isnan(frame_ll).any() or np.isnan(trans_ll).any())})
+        r = {'attained': attained, 'best': best, 'notes': notes, 'frames': int(frame_ll.shape[0]),
+             'events': [[kd, (p - shift) if kd else 0] for kd, p in evs], 'struct_ok': struct_ok,
+             'trans': trans_ll, 'frame_ll': hashlib.sha1(frame_ll.tobytes()).hexdigest(),
+             'nan': bool(np.isnan(frame_ll).any() or np.isnan(trans_ll).any())}
+        # the requested model, rebuilt outside infer_melody_for_sequence, and the score under it of the path the returned
+        # notes denote
+        doc = _documented_melody_model(a, shift)
+        if doc is not None and not (np.isnan(doc['frame_ll']).any() or np.isnan(doc['log_trans']).any()):
+            dpath = _path_of_notes([[s0, e0, q + shift] for s0, e0, q in notes], doc['times'], doc['pitches'])
+            if dpath is not None:
+                dinit = doc['log_trans'][0, :] + doc['frame_ll'][0, :]
+                dframes = [doc['frame_ll'][t] for t in range(1, doc['frame_ll'].shape[0])]
+                r['attained_doc'] = _float_path_score(dinit, doc['log_trans'], dframes, dpath)
+                r['best_doc'] = _float_dp(dinit, doc['log_trans'], dframes)
+        out.append(r)
     # how far the two transition matrices are apart (the only part of the melody HMM that sees absolute pitch)
     if 'trans' in out[0] and 'trans' in out[1]:
         t0, t1 = out[0].pop('trans'), out[1].pop('trans')
@@ -1125,6 +1219,12 @@ def oracle(case, io):
                 if (p, s) not in onsets:
                     return {'kind': 'melody-e2e-note-not-at-real-onset', 'note': [s, e, p],
                             'at_sequence_end': any(x[0] == p and x[1] == a['total'] for x in mel)}
+            if r['frames']:
+                if 'best_doc' not in r:
+                    return {'kind': 'melody-e2e-documented-model-not-evaluable'}
+                if not r['attained_doc'] >= r['best_doc'] - 1e-9 * max(1.0, abs(r['best_doc'])):
+                    return {'kind': 'melody-e2e-notes-not-maximum-likelihood-of-requested-model',
+                            'attained': r['attained_doc'], 'best': r['best_doc']}
             if not r['struct_ok']:
                 return {'kind': 'melody-e2e-zero-probability-structure-missing'}
             if r['frames']:
